@@ -32,3 +32,112 @@ Definition has_term (l : list ev) : bool := existsb is_term l.
 
 Definition c01_oracle (o : observation) : bool :=
   forallb (fun u => contract_ok (ulog u (ob_log o))) (users (ob_log o)).
+
+(* ------------------------------------------------------------------ C02 *)
+From RX Require Import Spec.
+
+(* equality of observed values: the identity of a window observable is not observable *)
+Fixpoint val_sim (a b : val) {struct a} : bool :=
+  match a, b with
+  | VObs _, VObs _ => true
+  | VList l1, VList l2 =>
+      (fix go (l1 l2 : list val) {struct l1} : bool :=
+         match l1, l2 with
+         | [], [] => true
+         | x :: r, y :: s => val_sim x y && go r s
+         | _, _ => false
+         end) l1 l2
+  | VMatN x, VMatN y => val_sim x y
+  | _, _ => val_eqb a b
+  end.
+Definition ev_sim (a b : ev) : bool :=
+  match a, b with
+  | Nx x, Nx y => val_sim x y
+  | Er x, Er y => Nat.eqb x y
+  | Co, Co => true
+  | _, _ => false
+  end.
+Fixpoint evs_sim (a b : list ev) : bool :=
+  match a, b with
+  | [], [] => true
+  | x :: r, y :: s => ev_sim x y && evs_sim r s
+  | _, _ => false
+  end.
+
+Definition scripts_of (sc : scenario) : nat -> list (list ev) := fun s => fst (nth s (sc_scripts sc) ([], false)).
+
+Definition is_windowing (op : opk) : bool := match op with OWindow _ | OGroupBy _ => true | _ => false end.
+Fixpoint inner_windowing (p : pipe) : bool :=      (* a window/group_by below the outermost operator *)
+  match p with
+  | POp op src _ => (fix below (q : pipe) : bool :=
+                       match q with
+                       | POp o s _ => is_windowing o || below s
+                       | PDefer s => below s
+                       | _ => false
+                       end) src
+  | PDefer q => inner_windowing q
+  | _ => false
+  end.
+
+(* Some true / Some false = the implementation's observation agrees / disagrees with the operator's
+   definition; None = the scenario is outside what C02's oracle speaks about *)
+Definition c02_oracle (sc : scenario) (o : observation) : option bool :=
+  match sc_script sc with
+  | [DSub 0 p []] =>
+      if inner_windowing p then None else
+      match spec_pipe (scripts_of sc) p with
+      | Some exp =>
+          if has_repeat p && negb (match snd exp with Completes => true | _ => false end) then None
+          else
+            let kids := spec_pipe_children (scripts_of sc) p in
+            Some (Nat.eqb (ob_out o) 0 &&
+                  evs_sim (ulog (uenc (UTop 0)) (ob_log o)) (events exp) &&
+                  forallb (fun ik : nat * sout => evs_sim (ulog (uenc (UChild (fst ik))) (ob_log o)) (events (snd ik)))
+                          (combine (seq 0 (length kids)) kids) &&
+                  forallb (fun u => match udec u with
+                                    | UTop k => Nat.eqb k 0
+                                    | UChild j => Nat.ltb j (length kids)
+                                    end) (users (ob_log o)))
+      | None => None
+      end
+  | _ => None
+  end.
+
+(* ------------------------------------------------------------------ three-way tie: impl = Seq = Loc.chain *)
+From RX Require Import Loc.
+
+Fixpoint chain_of (p : pipe) : option (pipe * list opk) :=       (* (source, operators from the source outwards) *)
+  match p with
+  | POp op src [] => match chain_of src with Some (s, ops) => Some (s, ops ++ [op]) | None => None end
+  | POp _ _ _ => None
+  | PHot _ | PInner _ | PConn _ => None
+  | _ => Some (p, [])
+  end.
+
+Definition loc_supported (op : opk) : bool := loc_node_op op || loc_derived_op op.
+
+Definition source_events (sc : scenario) (p : pipe) : option (list ev) :=
+  match p with
+  | PCold s => match scripts_of sc s with l :: _ => Some l | [] => Some [] end
+  | _ => match spec_pipe (scripts_of sc) p with Some i => Some (events i) | None => None end
+  end.
+
+(* the subscriber's log equals what the composition of the operators' LOCAL semantics gives *)
+Definition c02_loc_oracle (sc : scenario) (o : observation) : option bool :=
+  match sc_script sc with
+  | [DSub 0 p []] =>
+      match chain_of p with
+      | Some (s, ops) =>
+          if forallb loc_supported ops then
+            match source_events sc s with
+            | Some evs =>
+                let out := loc_chain ops evs in
+                if has_repeat p && negb (existsb is_term out) then None
+                else Some (Nat.eqb (ob_out o) 0 && evs_sim (ulog (uenc (UTop 0)) (ob_log o)) out)
+            | None => None
+            end
+          else None
+      | None => None
+      end
+  | _ => None
+  end.
